@@ -299,7 +299,7 @@ pub fn campaigns(ctx: &Ctx) -> Stats {
     let t = ctx.tier;
     let iff = iff_cases();
     st.merge(ctx.run_indexed("result-tracked-iff-an-operand-is", iff.len() as u64, Some("every built-in operation (all parameterisations of matmul incl. the additive term, conv, element-wise, unary, reductions, reshape) x every tracked/untracked assignment of its operands: result tracked <=> some operand tracked; with all operands untracked each operand can be moved into a Vec while the result is alive"), |i| Some(Case9::I(iff[i as usize].clone()))));
-    let (len, total) = t.pick((18usize, 40000u64), (60, 800000));
+    let (len, total) = t.pick((18usize, 160000u64), (60, 800000));
     for (name, exact) in [("flag-histories-exact", true), ("flag-histories-mixed", false)] {
         let cfg = cfg_for(t, exact);
         st.merge(ctx.run_prop(name, total / 2, move || recipe_strategy(len), move |r| Some(Case9::H(HistCase { oracle: "c09".into(), hist: elaborate(&cfg, r) }))));
